@@ -327,11 +327,11 @@ func runEntry(c *mon.Ctx, e *entry, skipped map[string]bool) {
 					continue
 				}
 				// value assignments: a few choices of distinct / equal values per block
-				for va := 0; va < c.Pick(4, 14); va++ {
+				for va := 0; va < c.Pick(4, 50); va++ {
 					vals := make([]int, nblocks)
 					for b := range vals {
 						if va >= 4 { // thorough: further generic / special mixtures
-							vals[b] = (va*7 + 3*b) % 23
+							vals[b] = (va*7 + (3+va/23)*b) % 23
 							continue
 						}
 						switch va {
